@@ -56,7 +56,7 @@ _TOTAL_NOTE = ("Trusted: the isolation worker's wall-clock limit (3 s per case, 
 
 FAMILIES["C09"] = dict(
     famtag="C09",
-    files=["spec/cases/C09_edges.ndjson", "spec/cases/C10_cyclic.ndjson", "spec/cases/C10_nonfinite.ndjson", "spec/cases/C09_dates.ndjson", "spec/cases/C09_matchers.ndjson"],
+    files=["spec/cases/C09_edges.ndjson", "spec/cases/C10_cyclic.ndjson", "spec/cases/C10_nonfinite.ndjson", "spec/cases/C10_nulls.ndjson", "spec/cases/C09_dates.ndjson", "spec/cases/C09_matchers.ndjson", "spec/cases/C09_substr.ndjson"],
     g=[G("MC_C09", "MC_C09_quick.cfg", "MC_C09_thorough.cfg")],
     v=[dict(profile="mix", n={"quick": 6000, "thorough": 120000}, args=["-nulls"]),
        dict(profile="calls", n={"quick": 2000, "thorough": 40000}, args=["-nulls"])],
@@ -68,7 +68,7 @@ FAMILIES["C09"] = dict(
 )
 FAMILIES["C10"] = dict(
     famtag="C10",
-    files=["spec/cases/C09_edges.ndjson", "spec/cases/C10_cyclic.ndjson", "spec/cases/C10_nonfinite.ndjson", "spec/cases/C09_dates.ndjson", "spec/cases/C09_matchers.ndjson"],
+    files=["spec/cases/C09_edges.ndjson", "spec/cases/C10_cyclic.ndjson", "spec/cases/C10_nonfinite.ndjson", "spec/cases/C10_nulls.ndjson", "spec/cases/C09_dates.ndjson", "spec/cases/C09_matchers.ndjson", "spec/cases/C09_substr.ndjson"],
     g=[G("MC_C09", "MC_C09_quick.cfg", "MC_C09_thorough.cfg"), G("MC_C10B", "MC_C10B_quick.cfg", "MC_C10B_thorough.cfg")],
     v=[dict(profile="mix", n={"quick": 6000, "thorough": 120000}, args=["-nulls"]),
        dict(profile="calls", n={"quick": 2000, "thorough": 40000}),
